@@ -401,7 +401,7 @@ func propC07(r *kernel.Run) {
 		victimW := NewWorld(r, "othernode", "inmem", false, false)
 		ocreds, oid := enrollStored(r, srv, victimW, nil, "")
 		rl := w.Net.Listen("rogue:9202")
-		kind := Pick2(tp, "foreign-roots", "stale-nonce", "nonce-omitted", "client-auth-leaf", "preference-ignored", "legit-relay")
+		kind := Pick2(tp, "foreign-roots", "stale-nonce", "nonce-omitted", "client-auth-leaf", "preference-ignored", "legit-relay", "selects-fetch-like-extra")
 		r.Count("fault.rogue_server."+kind, 1)
 		noClientCert := tp.Draw(3) == 0
 		// the rogue answers every connection it gets
@@ -430,7 +430,7 @@ func propC07(r *kernel.Run) {
 							cert = tls.Certificate{Certificate: [][]byte{b.CertificateDer, b.CaCertificateDer}, PrivateKey: k}
 						}
 						switch kind {
-						case "foreign-roots":
+						case "foreign-roots", "selects-fetch-like-extra":
 							_, caKey, _ := ed25519.GenerateKey(rand.Reader)
 							caDer := mintLeaf(nil, caKey, caKey.Public().(ed25519.PublicKey), []byte("ca"), "rogue-ca", x509.ExtKeyUsageServerAuth, time.Now().Add(-time.Hour), time.Now().Add(time.Hour))
 							ca, _ := x509.ParseCertificate(caDer)
@@ -463,6 +463,15 @@ func propC07(r *kernel.Run) {
 							}
 						}
 						out := &tls.Config{MinVersion: tls.VersionTLS13, ClientAuth: tls.RequestClientCert, ClientCAs: pool, Certificates: []tls.Certificate{cert}, NextProtos: h.SupportedProtos[:1]}
+						if kind == "selects-fetch-like-extra" {
+							// the rogue picks, of the protocols the node offered, the application's extra one that looks like a
+							// credential-fetch entry (which protocol is negotiated is the server's choice)
+							for _, p := range h.SupportedProtos {
+								if strings.HasPrefix(p, nodeenrollment.FetchNodeCredsNextProtoV1Prefix) {
+									out.NextProtos = []string{p}
+								}
+							}
+						}
 						if noClientCert {
 							out.ClientAuth, out.ClientCAs = tls.NoClientCert, nil
 						}
@@ -483,6 +492,11 @@ func propC07(r *kernel.Run) {
 			return c, nil
 		}
 		opts, od, _ := drawHonestOpts()
+		if kind == "selects-fetch-like-extra" {
+			// extra protocols are the application's business; this one happens to start like a library entry
+			opts = append(opts, nodeenrollment.WithExtraAlpnProtos([]string{"h2", nodeenrollment.FetchNodeCredsNextProtoV1Prefix + "application-defined"}))
+			od += " extras=fetch-like"
+		}
 		res, acc := dial("rogue-host:9202", opts...)
 		desc := fmt.Sprintf("rogue=%s %s", kind, od)
 		r.Count("cases", 1)
